@@ -1,7 +1,7 @@
 (** The sender-side theorems of C01 in their final form, over the observable frame log. *)
 From Coq Require Import List ZArith Bool Lia.
 From V Require Import Gen.Params Lib.Hex Wire.Varint SendStream.Model SendStream.ProofsBase SendStream.ProofsInv
-  SendStream.ProofsCov SendStream.ProofsOut SendStream.ProofsFin SendStream.ProofsCnt.
+  SendStream.ProofsCov SendStream.ProofsOut SendStream.ProofsFin SendStream.ProofsCnt SendStream.ProofsDone.
 Import ListNotations.
 Open Scope Z_scope.
 
@@ -10,6 +10,17 @@ Variables (sid0 : Z) (rsa : bool) (swin cwin : Z) (ops : list op).
 Let s0 := init sid0 rsa swin cwin.
 Let s := fst (run s0 ops).
 Let E := frames_of (snd (run s0 ops)).
+
+(* no op sets the ghost flag [late] any more (SetReliableBoundary and enableResetStreamAt are no-ops on a
+   reset stream): the hypothesis of round 2 is discharged *)
+Lemma run_late_const ops0 : forall st0, late (run_state st0 ops0) = late st0.
+Proof.
+  induction ops0 as [|o r IH]; intros st0; [reflexivity|].
+  unfold run_state in *. cbn [fold_left]. rewrite IH, step_late_eq. unfold sets_late. apply orb_false_r.
+Qed.
+
+Lemma late_never : late s = false.
+Proof. unfold s. rewrite run_fst, run_late_const. reflexivity. Qed.
 
 Lemma final_Inv : late s = false -> Inv s.
 Proof. intros H. unfold s in *. rewrite run_fst in *. apply run_Inv; auto. apply init_Inv. Qed.
@@ -89,9 +100,30 @@ Proof.
   destruct (_ && _); lia.
 Qed.
 
+(* onStreamCompleted is called exactly once per stream, and it HAS been called whenever nothing is in
+   flight, queued or buffered and the FIN was sent (or the reset is known to the application) *)
+Theorem sender_completion_exactly_once :
+  late s = false -> budgets_ok ops ->
+  done_calls (snd (run s0 ops)) = b2z (completed s) /\
+  (shutdown s = false -> all_done s -> completed s = true).
+Proof.
+  intros HL HB. split.
+  - rewrite run_count. unfold cz. fold s. unfold s0, init. ssimp. cbn. lia.
+  - intros HS. unfold s in *. rewrite run_fst in *.
+    apply (run_InvD ops s0 (init_Inv _ _ _ _) (init_InvC _ _ _ _) eq_refl); auto.
+    intros (_ & _ & _ & _ & [X|[X _]]); unfold s0, init in X; ssimp; congruence.
+Qed.
+
 Lemma reset_none_late : resetErr s = None -> late s = false.
 Proof.
   intros H. destruct (late s) eqn:EL; auto. exfalso.
   unfold s in *. rewrite run_fst in *. revert H. apply run_late_reset; auto. discriminate.
 Qed.
+
+(** the same theorems without the (now vacuous) hypothesis *)
+Definition sender_frames_consistent' := sender_frames_consistent late_never.
+Definition reset_stream_holds_no_buffer' := reset_stream_holds_no_buffer late_never.
+Definition sender_no_panic' := sender_no_panic late_never.
+Definition sender_completion_exactly_once' := sender_completion_exactly_once late_never.
+Definition emitted_good' := emitted_good late_never.
 End Sender.
